@@ -43,7 +43,7 @@ def kfun(mat):
     return k
 
 
-def pin_events(pm, q_lin, T_cool, htc, dz, t, sb=None):
+def pin_events(pm, q_lin, T_cool, htc, dz, t, sb=None, gapk=None):
     """Pin events from the model and the temperatures it returned."""
     ev = []
     r_ci, r_cm, r_co = pm.clad['r']
@@ -51,6 +51,9 @@ def pin_events(pm, q_lin, T_cool, htc, dz, t, sb=None):
     rf = float(pm.fuel['r'][-1, 1])
     fuel_k = [kfun(m) for m in pm.fuel['mat']]
     sbc = sb if sb is not None else SB
+    # conductivity of the fuel-clad gap: of the material the input names
+    # (recorded sweeps), else the one the model holds
+    gk = gapk if gapk is not None else pm.gap.get('k')
     for p in range(len(q_lin)):
         Tc, Tco, Tcm, Tci, Tfs, Tcl = [float(x) for x in t[p]]
         q = float(q_lin[p])
@@ -64,7 +67,7 @@ def pin_events(pm, q_lin, T_cool, htc, dz, t, sb=None):
         gap = int(pm.gap['dr'] > 0)
         qgap = 0.0
         if gap:
-            kg = 0.5 * (float(pm.gap['k'](Tfs)) + float(pm.gap['k'](Tci)))
+            kg = 0.5 * (float(gk(Tfs)) + float(gk(Tci)))
             qgap = 2 * math.pi * rf * (
                 kg * (Tfs - Tci) / pm.gap['dr']
                 + pm.fuel['e'] * sbc * (Tfs ** 4 - Tci ** 4))
@@ -87,8 +90,8 @@ def pin_events(pm, q_lin, T_cool, htc, dz, t, sb=None):
         # non-positive (powers far beyond melting): ordering is then moot
         kpos = int(float(kc(Tci)) > 0 and float(kc(Tco)) > 0
                    and all(fk(Tfs) > 0 and fk(Tcl) > 0 for fk in fuel_k)
-                   and (not gap or (float(pm.gap['k'](Tfs)) > 0
-                                    and float(pm.gap['k'](Tci)) > 0)))
+                   and (not gap or (float(gk(Tfs)) > 0
+                                    and float(gk(Tci)) > 0)))
         # tolerances from the model's own stopping rule (atol = 1e-3 K)
         dTc = max(abs(Tci - Tco), 1e-9)
         tolq_rel = 3e-3 / dTc + 1e-7
@@ -210,6 +213,25 @@ class PinObs(drive.Observer):
         self.stride = stride
         self.proj = {}
         self.held = {}
+        self.gapk = {}
+        if case is not None:
+            import dassh as _d
+            for name, t in case['types'].items():
+                sec = t.get('FuelModel') or t.get('PinModel') or {}
+                gm = sec.get('gap_material')
+                if not gm:
+                    continue
+                spec = case.get('materials', {}).get(gm)
+                try:
+                    mat = (_d.Material(gm.lower(), coeff_dict={
+                        k: (list(v) if isinstance(v, (list, tuple)) else [v])
+                        for k, v in spec.items() if v is not None})
+                        if spec is not None else _d.Material(gm.lower()))
+                    self.gapk[name] = kfun(mat)
+                except BaseException as e:
+                    raise common.MachineryError(
+                        f'gap material {gm} of the input cannot be built '
+                        f'independently: {type(e).__name__} {e}')
 
     def on_asm(self, ai, asm, pre, dz, t_gap, h_gap, power, adiabatic):
         reg = pre.reg
@@ -235,7 +257,7 @@ class PinObs(drive.Observer):
         h = cool.thermal_conductivity * nu / de
         idx = list(range(0, reg.n_pin, max(1, reg.n_pin // 6)))
         sub = pin_events(pm, pw[idx], t[idx, 0], np.full(len(idx), h), dz,
-                         t[idx])
+                         t[idx], gapk=self.gapk.get(asm.name))
         self.ev += sub
         # coolant temperature of the pins from the geometric incidence
         if id(reg) not in self.proj:
